@@ -39,7 +39,7 @@ ASSUMPTIONS = ["a process forked from the import-only check process is equivalen
 
 def parts(tier):
     big = tier == "thorough"
-    return [Part("prog", "hyp", strategy=universe.gen_program(), n=120000 if big else 5000, chunk=800)]
+    return [Part("prog", "hyp", strategy=universe.gen_program(max_steps=18 if big else 10), n=200000 if big else 5000, chunk=800)]
 
 
 def run_forked(program, schedule):
